@@ -1,5 +1,6 @@
 import Proofs.Superimpose
 import Proofs.SuperimposeLifetime
+import Proofs.SetSyntax
 /-!
 C15 — syntax highlighting only recolours foregrounds, by the file's language.
 
@@ -435,5 +436,86 @@ example : sbsRewrite true (fun n => n == "minus_emph_style") "minus_style" "norm
     "syntax 52".toList ∧
     sbsRewrite true (fun n => n == "minus_emph_style") "minus_emph_style" "normal 88".toList =
     "normal 88".toList := by decide
+
+end C15
+
+
+/-! ### `set_syntax` sees nothing but its argument (no cache, no memo in the painter) -/
+namespace C15
+open Superimpose Superimpose.Lifetime Generated.SuperimposeLifetime
+
+/-- `Painter::set_syntax(filename)` stores the language of `filename`, **whatever else the painter
+holds** (`p.tables`: any contents of any other field, e.g. of a cache) and whatever a derived key or a
+body the translator does not understand would compute (`env.keyOf`, `env.other`: arbitrary).
+Breaks as soon as the generated description of `set_syntax` (`setSyntaxRhs`) is anything but the plain
+`Painter::get_syntax(&self.config.syntax_set, filename, &self.config.default_language)`: a memo
+`self.<field>.entry(<key>).or_insert_with(…)` or any other read of a painter field. -/
+theorem set_syntax_reads_only_its_argument {σ : Type} (env : SetSyntaxEnv σ) :
+    Faithful env setSyntaxRhs := by
+  have h : setSyntaxRhs = .getSyntaxOfArgument := rfl
+  rw [h]
+  exact faithful_getSyntaxOfArgument env
+
+/-- The source facts behind it: `set_syntax` mentions no painter field besides `config` and the
+assigned `syntax`, of the configuration only the syntax set and the default language; the painter
+has one field that holds a syntax; `get_syntax` refers to no static / global besides the fallback
+language constant, uses no macro, and calls by path only `Path::new` and `delta_unreachable`. -/
+theorem set_syntax_source_inventory :
+    setSyntaxOtherFields = [] ∧
+    setSyntaxConfigReads = ["default_language", "syntax_set"] ∧
+    painterSyntaxFields = ["syntax"] ∧
+    getSyntaxConstants = ["config::SYNTAX_FALLBACK_LANG"] ∧ getSyntaxMacros = [] ∧
+    getSyntaxCalls = ["delta_unreachable", "std::path::Path::new"] := by
+  decide
+
+/-- `language_depends_on_current_file_only` for a painter that carries arbitrary further tables
+(`ps.tables`: what a cache filled by any history would hold): every `set_syntax` of the three handlers
+is interpreted from its generated description (`runP … setSyntaxRhs`), and still every element painted
+for a file section uses the language of that file's own parsed name. -/
+theorem language_depends_on_current_file_only_any_painter_state {σ : Type} (env : SetSyntaxEnv σ)
+    (ps : PState σ) (hs : Lifetime.Inv false .start ps.st) (m p mkm mkp : Option (List Char))
+    (body : List Event)
+    (hnf : ∀ e ∈ body, isFileEvent e = false) (hw : wf false .header body = true) :
+    ∀ q ∈ (runP env setSyntaxRhs
+        (runP env setSyntaxRhs ps [.fileMinus m mkm, .filePlus p mkp]).1 body).2,
+      ∃ n, q.used = some (fileLang env.lang m p, n) ∧ (q.kind = .fragment → n = 0) := by
+  have hf := set_syntax_reads_only_its_argument env
+  obtain ⟨a, _⟩ := runP_sim env setSyntaxRhs hf [.fileMinus m mkm, .filePlus p mkp] ps
+  obtain ⟨_, d⟩ := runP_sim env setSyntaxRhs hf body
+    (runP env setSyntaxRhs ps [.fileMinus m mkm, .filePlus p mkp]).1
+  rw [d, a]
+  exact language_depends_on_current_file_only env.lang ps.st hs m p mkm mkp body hnf hw
+
+/-- A world with two languages in which every key expression yields the extension. -/
+def memoWitnessEnv : SetSyntaxEnv String :=
+  { lang := fun n => if n = some "CMakeLists.txt".toList then "CMake" else "Plain Text",
+    keyOf := fun _ n => n.map fun p => (extension p).getD [],
+    other := fun _ _ s _ => s }
+
+/-- Why a memo cannot be let through: keyed by the extension, the second of two files that share
+it gets the first one's language — `notes.txt` after `CMakeLists.txt` is CMake. (The model of the
+seeded change `C15-w5-05`; with it `set_syntax_reads_only_its_argument` is false.) -/
+theorem memo_by_derived_key_is_not_faithful :
+    ¬ Faithful memoWitnessEnv (.memoOrGetSyntax "syntax_by_extension" (.derived "extension")) := by
+  intro h
+  have := h (setSyntax memoWitnessEnv ⟨"Plain Text", fun _ => []⟩ (some "CMakeLists.txt".toList)
+    (.memoOrGetSyntax "syntax_by_extension" (.derived "extension"))) (some "notes.txt".toList)
+  revert this
+  decide
+
+example :
+    let env := memoWitnessEnv
+    let secs (a b : String) : List Event :=
+      [.fileMinus (some a.toList) none, .filePlus (some a.toList) none, .hunkHeader, .contextLine,
+       .fileMinus (some b.toList) none, .filePlus (some b.toList) none, .hunkHeader, .contextLine, .flush]
+    -- the source as it is: each section in its own language
+    ((runP env setSyntaxRhs (initialP env false) (secs "CMakeLists.txt" "notes.txt")).2.map fun q =>
+        q.used.map Prod.fst) =
+      [some "CMake", some "CMake", some "Plain Text", some "Plain Text"] ∧
+    -- a memo keyed by the extension: the first file's language sticks
+    ((runP env (.memoOrGetSyntax "syntax_by_extension" (.derived "extension")) (initialP env false)
+        (secs "CMakeLists.txt" "notes.txt")).2.map fun q => q.used.map Prod.fst) =
+      [some "CMake", some "CMake", some "CMake", some "CMake"] := by
+  decide
 
 end C15
